@@ -235,6 +235,10 @@ type Field struct {
 	// field type. If the field is coming from a pointer to a struct,
 	// there will be a second element providing a pointer to the field.
 	Out []types.Type
+
+	// call is the wire.FieldsOf call that lists this field. The fields
+	// listed by one call are a single item of their provider set.
+	call *ast.CallExpr
 }
 
 // Load finds all the provider sets in the packages that match the given
@@ -1109,6 +1113,7 @@ func processFieldsOf(fset *token.FileSet, info *types.Info, call *ast.CallExpr) 
 			Pkg:    v.Pkg(),
 			Pos:    v.Pos(),
 			Out:    out,
+			call:   call,
 		})
 	}
 	return fields, nil
